@@ -10,6 +10,7 @@ mod lockx;
 mod model;
 mod names;
 mod probes;
+mod readers;
 mod report;
 mod sched;
 mod schedx;
